@@ -55,6 +55,14 @@ def idom_component(tag):
             "nontrivial": lambda l: "(assume" in l and ("(join" in l or "(widen" in l or "(meet" in l),
             "accept": (lambda tag: lambda v, req, msg: tag in msg or v == "DRIFT")(tag)}
 
+def xdom_components(tag, quick=3500, thorough=150000):
+    # exact models of constant_domain (1), sign_domain (2), congruence_domain (3): every binding, flags, exported
+    # constraints, entails / <= / at answers after every operation of a random history must be identical
+    return [{"harness": f"h_cdom_{d}", "source": "h_cdom", "defines": [f"-DXDOM={d}"], "quick": quick, "thorough": thorough,
+             "shards": 2, "nontrivial": lambda l: "(assume" in l and ("(join" in l or "(widen" in l or "(meet" in l),
+             "accept": (lambda tag: lambda v, req, msg: tag in msg or v == "DRIFT")(tag)} for d in (1, 2, 3)]
+
+
 DOM2_DOMAINS = {27: "vpart-intervals", 28: "pvpart-sdbm", 29: "uf", 30: "packing-sdbm", 31: "packing-soct-safe",
  32: "rgn-intervals", 33: "rgn-flat-bool-intervals", 34: "flat-bool-sdbm-safe", 35: "flat-bool-soct-safe", 36: "flat-bool-term-intervals",
  37: "flat-bool-ric", 38: "term-dis-intervals", 39: "term-sparse-dbm", 40: "product-intervals-congruences", 41: "product-sdbm-safe-dis-intervals",
@@ -79,6 +87,16 @@ def wchain_components(quick=150, thorough=3000):
     cs.append({"harness": "h_widen_scalar", "source": "h_widen", "defines": ["-DWSCALAR=1"], "quick": 1500, "thorough": 60000,
                "shards": 1, "nontrivial": nt, "accept": acc})
     return cs
+
+
+# zones widening chains given by in-language constraints, replayed by the PROVED model (CrabModel/Dom/DbmWiden.lean)
+ZW_IDS = [6, 7, 22, 25, 26]
+
+
+def zw_components(quick=3000, thorough=100000):
+    nt = lambda l: (lambda m: bool(m) and m.group(1).count("0") >= 2)(re.search(r"\(st ([01]+)\)", l))
+    return [{"harness": f"h_zwiden_{d}", "source": "h_zwiden", "defines": [f"-DVDOM={d}"], "quick": quick,
+             "thorough": thorough, "shards": 2, "corpus": "h_zwiden", "nontrivial": nt} for d in ZW_IDS]
 
 DOM_RULE = ("operation histories (6-34 ops quick, up to 66 thorough, after a seeding phase) over a pool of 4 abstract values and 5 integer variables: "
             "assign / arith / bitwise / assume (in-language and general linear constraints, strict, disequations, non-unit coefficients) / select / forget / project / rename / expand / "
@@ -132,15 +150,17 @@ PROPS = {
     },
     "C03": {
         "level": "proof",
-        "lean_modules": ["CrabProofs.Props.C03", "CrabProofs.Props.C03Itv"],
-        "components": [idom_component("[C03]")] + dom_components("[C03]", 900, 12000) + dom2_components("[C03]", 400, 6000),
+        "lean_modules": ["CrabProofs.Props.C03", "CrabProofs.Props.C03Itv", "CrabProofs.Props.C03Cst", "CrabProofs.Props.C03Sgn",
+                         "CrabProofs.Props.C03CongDom"],
+        "components": [idom_component("[C03]")] + xdom_components("[C03]") + dom_components("[C03]", 900, 12000) + dom2_components("[C03]", 400, 6000),
         "rule": DOM_RULE, "assumptions": DOM_ASSUME,
         "trusted_base": COMMON_TB + ["driver concrete semantics: lean/Driver/DomH.lean (definitions of the witness replay and of membership)"],
     },
     "C04": {
         "level": "proof",
-        "lean_modules": ["CrabProofs.Props.C04", "CrabProofs.Props.C04Itv"],
-        "components": [idom_component("[C04]")] + dom_components("[C04]", 700, 10000) + dom2_components("[C04]", 300, 5000),
+        "lean_modules": ["CrabProofs.Props.C04", "CrabProofs.Props.C04Itv", "CrabProofs.Props.C04Cst", "CrabProofs.Props.C04Sgn",
+                         "CrabProofs.Props.C04CongDom"],
+        "components": [idom_component("[C04]")] + xdom_components("[C04]") + dom_components("[C04]", 700, 10000) + dom2_components("[C04]", 300, 5000),
         "rule": DOM_RULE + "; C04 adds: all ordered pairs of the final pool for <=, x<=x, bot<=x, x<=top, is_bottom(bottom), is_top(top), is_top/is_bottom after set_to_*",
         "assumptions": DOM_ASSUME,
         "trusted_base": COMMON_TB + ["driver concrete semantics: lean/Driver/DomH.lean"],
@@ -166,17 +186,17 @@ PROPS = {
     "C05": {
         "level": "proof",
         "lean_modules": ["CrabProofs.Props.C05", "CrabProofs.Props.C05Itv", "CrabProofs.Props.C05Chain", "CrabProofs.Props.C05Zones"],
-        "components": [dict(FIX_COMPONENT, timeout=600)] + wchain_components(),
-        "rule": "(1) same iterator harness as C06; every run is executed under a wall-clock watchdog; the model needs finite fuel on every generated CFG. (2) widening chains x_i = x_{i-1} widen y_i over 25 shipped domain instantiations and the wrapped_interval scalar (all widths): y_i independent values, loop-body images F(x_{i-1}) and F(x_{i-1}) | x0; plain widening, widening_thresholds with random threshold sets, delayed widening; adversarial sequences (ever-growing bounds, alternating variables, new relations, constants jumping over thresholds) and realistic loop bodies; every witness of both arguments must satisfy the result, the chain must reach a stationary suffix within 60-300 steps; narrowing of decreasing pairs must keep the second argument's states; non-trivial = at least two non-stationary steps",
+        "components": [dict(FIX_COMPONENT, timeout=600)] + wchain_components() + zw_components(),
+        "rule": "(1) same iterator harness as C06; every run is executed under a wall-clock watchdog; the model needs finite fuel on every generated CFG. (2) widening chains x_i = x_{i-1} widen y_i over 25 shipped domain instantiations and the wrapped_interval scalar (all widths): y_i independent values, loop-body images F(x_{i-1}) and F(x_{i-1}) | x0; plain widening, widening_thresholds with random threshold sets, delayed widening; adversarial sequences (ever-growing bounds, alternating variables, new relations, constants jumping over thresholds) and realistic loop bodies; every witness of both arguments must satisfy the result, the chain must reach a stationary suffix within 60-300 steps; narrowing of decreasing pairs must keep the second argument's states; non-trivial = at least two non-stationary steps. (3) zones widening chains given by in-language constraints (2-5 variables; two/three-counter families, one-constant-moves, translated loops, random and infeasible values; plain / widening_thresholds / probed / operator[]-on-stored modes) over split_dbm and sparse_dbm (5 instantiations) replayed by the PROVED model of C05Zones: bottom-ness, both inclusion flags and the closed result are compared entrywise per step",
         "assumptions": ["the widening chain condition is proved for intervals, the interval domain, congruences, constants and signs; for the other shipped domains it is tested by the chain harness (no stationary suffix within N steps is reported, a run cannot prove non-termination)", "inter-procedural recursion loops are only exercised by the C09 harness under its watchdog"],
         "trusted_base": COMMON_TB + ["model: CrabModel/Fix/Interleaved.lean"],
     },
     "C13": {
         "level": "proof",
-        "lean_modules": ["CrabProofs.Props.C13", "CrabProofs.Props.C13WInt"],
+        "lean_modules": ["CrabProofs.Props.C13", "CrabProofs.Props.C13WInt", "CrabProofs.Props.C13WInt2"],
         "components": [{"harness": "h_wrap", "quick": 400000, "thorough": 8000000, "shards": 16,
                         "nontrivial": lambda l: True},
-                       {"harness": "h_wint", "quick": 100000, "thorough": 2000000, "shards": 16,
+                       {"harness": "h_wint", "quick": 100000, "thorough": 2000000, "shards": 16, "corpus": "h_wint",
                         "nontrivial": lambda l: " top" not in l and " bot" not in l},
                        {"harness": "h_wint", "key": "h_wint_exhaustive", "args": ["--exhaustive"], "quick": 70000, "thorough": 1140000,
                         "shards": 1, "nontrivial": lambda l: " top" not in l and " bot" not in l}],
@@ -287,14 +307,14 @@ PROPS = {
     },
     "C10": {
         "level": "proof",
-        "lean_modules": ["CrabProofs.Props.C10"],
+        "lean_modules": ["CrabProofs.Props.C10", "CrabProofs.Props.C10BottomUp"],
         "components": [{"harness": f"h_inter_bu_{k}", "source": "h_inter", "defines": [f"-DVDOM={k}", "-DVMODE=1"], "corpus": "h_inter",
                         "quick": 1500, "thorough": 40000, "shards": 2,
                         "nontrivial": lambda l: "(call" in l,
                         "accept": lambda v, req, msg: ("[C10]" in msg and "[C02]" not in msg) or v == "DRIFT"} for k in (1, 2, 3, 4, 5)],
         "rule": "same program generator as C09, analysed by the REAL bottom_up_inter_analyzer for 5 (summary domain, forward domain) pairs incl. different domains; invariants and stored summaries checked against call-stack executions",
         "assumptions": ["as C09"],
-        "trusted_base": COMMON_TB + ["models: CrabModel/Inter/{ISyntax,ISemantics,TopDown}.lean"],
+        "trusted_base": COMMON_TB + ["models: CrabModel/Inter/{ISyntax,ISemantics,TopDown,BottomUp}.lean"],
     },
     "C14": {
         "level": "proof",
